@@ -64,7 +64,7 @@ def doTl (c : Json) : Json :=
         let j : Job := ⟨id, jnat o "due", jnat o "period", s.serial⟩
         let r := schedule { s with serial := s.serial + 1 } j true
         (r.1, if r.2 then [] else [("adderr", Json.bool true)])
-      | "rem" => (step s (.rem id), [("found", Json.bool (hasJob id s.tl))])
+      | "rem" => (step s (.rem id), [("found", Json.bool (remFound s id))])
       | "suspend" | "bsuspend" => (if started then step s .suspend else s, [])
       | "resume" | "bresume" => (if started then step s .resume else s, [])
       | "pause" => (if started then step (settle 100 (step s .pauseBegin)) .pauseEnd else s, [])
@@ -131,14 +131,20 @@ def internal (pauseMs : Nat) : Nat → Sim → Nat → Sim
           else sim'
         internal pauseMs fuel sim' limit
 
-/-- `fa`: repaired timer arming (Rem re-arms; a delivery that finds nothing ready re-arms) — the behaviour the property
-demands where the real code has the rem-head-disarms defect. `fb`: Rem/replace also cancels the re-scheduling of a running
-job with that id (rem-in-flight defect). With both off this is the faithful model. -/
+/-- The specification the faithful model is compared with, independent of the regenerated flags. `fa`: the timer is armed for
+the head whenever the loop is neither suspended nor paused (Rem re-arms; a delivery that finds nothing ready re-arms) — what the
+property demands; the code before the repair of rem-head-disarms did not. `fb`: Rem/replace also cancels the re-scheduling of a
+running job with that id and reports it as found (rem-in-flight). With both off this is the faithful model (the code as
+extracted); on the repaired code all three predict the same fires. -/
 def fixArm (fa : Bool) (s : Cron) : Cron :=
   if fa && !s.suspended && !s.paused then { s with armed := rearm s.tl } else s
 
 def dropRunning (fb : Bool) (id : Nat) (s : Cron) : Cron :=
-  if fb then { s with inflight := s.inflight.filter (fun j => j.id != id) } else s
+  if fb then { s with inflight := s.inflight.filter (fun j => j.id != id), running := s.running.filter (fun j => j.id != id) } else s
+
+/-- the `found` result of `Rem`: in the specification a recurring job whose `Fn` is running counts as found -/
+def foundB (fb : Bool) (id : Nat) (s : Cron) : Bool :=
+  if fb then hasJob id s.tl || s.inflight.any (fun j => j.id == id && j.period != 0) else remFound s id
 
 /-- internal events with the optional repair of the timer -/
 def internalF (fa : Bool) (pauseMs : Nat) : Nat → Sim → Nat → Sim
@@ -176,7 +182,7 @@ def simulate (c : Json) (fa fb : Bool) : Sim × List String :=
                  found := sim.found ++ [Json.mkObj [("adderr", Json.bool (!r.2)), ("inflight", Json.bool (s.inflight.any (fun j => j.id == id)))]] }
     | "rem" =>
       { sim with s := fixArm fa (dropRunning fb id (step s (.rem id))),
-                 found := sim.found ++ [Json.mkObj [("found", Json.bool (hasJob id s.tl)), ("inflight", Json.bool (s.inflight.any (fun j => j.id == id))),
+                 found := sim.found ++ [Json.mkObj [("found", Json.bool (foundB fb id s)), ("inflight", Json.bool (s.inflight.any (fun j => j.id == id))),
                    ("serial", Json.num (JsonNumber.fromNat s.serial))]] }
     | "suspend" | "bsuspend" => { sim with s := step s .suspend, found := sim.found ++ [Json.mkObj []] }
     | "resume" | "bresume" => { sim with s := step s .resume, found := sim.found ++ [Json.mkObj []] }
@@ -203,10 +209,11 @@ def doWall (c : Json) : Json :=
     ("armed", match sim.s.armed with | some t => Json.num (JsonNumber.fromInt ((t : Int) - clock0)) | none => Json.null),
     ("suspended", Json.bool sim.s.suspended),
     ("stuck", Json.bool (sim.s.armed.isNone && !sim.s.tl.isEmpty && !sim.s.suspended && !sim.s.paused)),
-    ("spec_fires", firesJson ids clock0 simAB.s.log),
+    ("spec_fires", firesJson ids clock0 simAB.s.log), ("spec_ops", Json.arr simAB.found.toArray),
     ("spec_pending", Json.num (JsonNumber.fromNat simAB.s.tl.length)),
     ("class_disarm", Json.bool (key sim != key simA || sim.s.tl.length != simA.s.tl.length)),
-    ("class_inflight", Json.bool (key simA != key simAB || simA.s.tl.length != simAB.s.tl.length)),
+    ("class_inflight", Json.bool (key simA != key simAB || simA.s.tl.length != simAB.s.tl.length ||
+        simA.found.map (fun j => jbool j "found") != simAB.found.map (fun j => jbool j "found"))),
     ("events", Json.arr (sim.events.map (fun e => Json.arr #[Json.num (JsonNumber.fromInt ((e.1 : Int) - clock0)), Json.str e.2])).toArray)]
 
 /-! ### crolt -/
@@ -259,4 +266,7 @@ def handleC16 (kind : String) (c : Json) : Json :=
   | "c16.tl" => C16D.doTl c
   | "c16.wall" => C16D.doWall c
   | "c16.crolt" => C16D.doCrolt c
+  | "c16.crolt.jitter" =>
+    -- `Cron.Jitter` as extracted: the result lies in [-sub, max - sub)
+    Json.mkObj [("sub", Json.num (JsonNumber.fromNat (C16Gen.jitterSub (C16D.jnat c "max"))))]
   | _ => Json.mkObj [("err", Json.str ("unknown kind " ++ kind))]
